@@ -205,8 +205,9 @@ def step (ctx : Scope) (i : Instr) (s : VmState) : Res VmState :=
     | a :: rest => .ok (if truthy a then { s with pc := t } else nxt { s with stack := rest })
     | _ => .error .outOfFragment
   | .beginCapture => .ok (nxt { s with outs := "" :: s.outs })
+  -- the last buffer is the output of the template, not a capture
   | .endCapture => match s.outs with
-    | o :: rest => .ok (nxt { s with outs := rest, stack := .str o :: s.stack })
+    | o :: r :: rest => .ok (nxt { s with outs := r :: rest, stack := .str o :: s.stack })
     | _ => .error .outOfFragment
   | .dupTop => match s.stack with
     | a :: rest => .ok (nxt { s with stack := a :: a :: rest })
@@ -229,6 +230,40 @@ def run (ctx : Scope) (code : List Instr) : Nat → VmState → Res VmState
     | some i => match step ctx i s with
       | .ok s' => run ctx code fuel s'
       | .error e => .error e
+
+/-! ## Discarding output
+
+`Output::begin_capture(Discard)`: the top level of a child template after `{% extends %}` and a
+module loaded with `{% from … import … %}` run with an output that throws away what is written to
+it.  Only the *bottom* entry discards; a capture that is begun while the output discards (`{% set x %}
+…{% endset %}`, a filter block) still buffers what is written into it (`beginCapture` pushes a
+buffer whatever is below it), and `endCapture` returns the buffered text. -/
+
+/-- forget what was written to the bottom entry of the output -/
+def eraseBottom (s : VmState) : VmState :=
+  { s with outs := match s.outs.reverse with
+      | [] => []
+      | _ :: r => ("" :: r).reverse }
+
+/-- `run` with a discarding output -/
+def runD (ctx : Scope) (code : List Instr) : Nat → VmState → Res VmState
+  | 0, _ => .error .fuel
+  | fuel + 1, s =>
+    match code[s.pc]? with
+    | none => .ok s
+    | some i => match step ctx i s with
+      | .ok s' => runD ctx code fuel (eraseBottom s')
+      | .error e => .error e
+
+/-- the first `boundary` instructions run with a discarding output (child template / module), the
+rest (layout / importing template) continues in the same frames with a fresh output -/
+def renderCodeAfter (fuel : Nat) (ctx : Scope) (code : List Instr) (boundary : Nat) : Res String :=
+  match runD ctx (code.take boundary) fuel {} with
+  | .ok s1 =>
+    match run ctx code fuel { s1 with pc := boundary, stack := [], outs := [""] } with
+    | .ok s => .ok (s.outs.getLast?.getD "")
+    | .error e => .error e
+  | .error e => .error e
 
 def renderCode (fuel : Nat) (ctx : Scope) (code : List Instr) : Res String :=
   match run ctx code fuel {} with
